@@ -46,6 +46,13 @@ def presentations(rng, names, seqs, wd, tag, protein, tier, long_lines=False):
     out.append(("clustal", [w(present.to_clustal(names, rows, width=rng.choice([60, 50, 17]), consensus=True, numbers=rng.random() < 0.5), "aln")]))
     out.append(("clustal-o-header", [w(present.to_clustal(names, rows, width=60, header="CLUSTAL O(1.2.4) multiple sequence alignment"), "aln")]))
     out.append(("msf", [w(present.to_msf(names, rows, width=rng.choice([60, 50]), protein=protein, gapchar=rng.choice([".", "~", "-"]), groups_of_ten=rng.random() < 0.5), "msf")]))
+    # blank lines as padding: in front of the first record / header (FASTA, MSF), at the end, and several between blocks
+    kb = rng.choice([1, 2, 4])
+    out.append(("fasta-leading-blank-%d" % kb, [w("\n" * kb + present.to_fasta(names, seqs, width=60), "fa")]))
+    kb = rng.choice([5, 6, 9, 30])
+    out.append(("fasta-leading-blank-%d" % kb, [w("\n" * kb + present.to_fasta(names, seqs, width=60) + "\n" * rng.choice([1, 5, 12]), "fa")]))
+    out.append(("msf-leading-blank-%d" % kb, [w("\n" * kb + present.to_msf(names, rows, width=60, protein=protein) + "\n\n\n", "msf")]))
+    out.append(("clustal-more-blank-lines", [w(present.to_clustal(names, rows, width=rng.choice([60, 23])).replace("\n\n", "\n\n\n\n") + "\n\n", "aln")]))
     if long_lines:
         out.append(("clustal-unwrapped", [w(present.to_clustal(names, rows, width=0), "aln")]))
         out.append(("msf-unwrapped", [w(present.to_msf(names, rows, width=0, protein=protein), "msf")]))
